@@ -897,6 +897,11 @@ def run(repo, chk, tier):
     from ..tapescope import check_tape_scope
 
     check_tape_scope(repo, chk, ["tf_pwa/model/"], min_functions=10)
+    # the value returned with a gradient is the stand-alone NLL only if no part of it is remembered from an earlier
+    # call with other samples (shared with C06)
+    from ..cacheown import check_persistent_state
+
+    check_persistent_state(repo, chk, ["tf_pwa/model/"])
     from .c07_hesschain import check_hessian_chain
 
     check_hessian_chain(repo, chk)
